@@ -110,11 +110,21 @@ func parseCommaRules(input string) ([]rule, error) {
 	blockStart := 0
 	blockCounter := 0
 	comment := false
+	quoted := false
 	aare := false
 	canHaveInlineComment := false
 	size := len(input)
 	for idx, r := range input {
+		if quoted && r != '"' && r != '\n' {
+			// Inside a quoted value nothing is a separator, a block or a comment
+			continue
+		}
 		switch r {
+		case '"':
+			if !comment {
+				quoted = !quoted
+			}
+
 		case tokOPENBRACE, tokOPENBRACKET, tokOPENPAREN:
 			if !comment {
 				blockCounter++
@@ -132,6 +142,7 @@ func parseCommaRules(input string) ([]rule, error) {
 			}
 
 		case '\n':
+			quoted = false
 			if comment {
 				comment = !comment
 				if canHaveInlineComment {
